@@ -336,8 +336,11 @@ def r5_beta_domain(ctx):
                   f"upper clip bound {vhi!r} rounds to {f32(vhi)!r} in single precision (the values are float32): a saturated value 1.0 is not moved inside (0, 1), the variance bound mu(1-mu) is 0 "
                   "and the Beta shape parameters are NaN - a valid design does not run to completion", construct="upper clip bound")
     # the clipped values (and nothing else) are the means used for the shape parameters
-    src = U(f.node)
-    ok = "mu * (1 - mu)" in src and "_no_noise" in src
+    from ..astq import Canon, unify
+    L = Canon(f.node).lines(True, True)
+    SH = "?mu * (?mu * (1 - ?mu) / ?{v} - 1)"
+    ok = unify(L, ["?df = pd.concat([pd.DataFrame($0.model.estimate(...)[?i].clip(...), ...columns=[?c + '_no_noise' for ?c in $0.features]) for ?i in $0.model.estimate(...).keys()])",
+                   "?mu = ?df[?ft + '_no_noise']", f"?df.loc[:, ?ft] = beta.rvs({SH}, (1 - ?mu) * (?mu * (1 - ?mu) / ?{{v}} - 1))"]) is not None
     ctx.check(ok, "C18.R5", f, f.node, "shape parameters derive from the clipped means", "the Beta shape parameters no longer derive from the clipped noiseless values", construct="means feed the shape parameters")
 
 
